@@ -308,6 +308,20 @@ func (m *Monitor) AfterOp(op Op, s Sample) {
 	if s.Class == "XLimit" || s.Class == "XCycle" {
 		m.Rejected = true
 	}
+	if isPass {
+		// a sentinel that fired is owed a recompute of the node it watches; a pass that fails may
+		// stop before reaching it, the debt is then settled by a later pass
+		for _, sref := range e.Nodes {
+			if sref == nil || sref.Kind != "Sentinel" || !sref.Fired {
+				continue
+			}
+			for _, ev := range s.Raw {
+				if ev.N == sref.Watched && (ev.K == "EvInvoked" || ev.K == "EvCutoff" || ev.K == "EvBindFn") {
+					sref.Fired = false
+				}
+			}
+		}
+	}
 	if op.K == "AddInput" && s.Class == "XOk" && !m.Cyclic && m.dependsOn(op.B, op.A, map[int]bool{}) {
 		if e.Registered(op.A) {
 			// C18: linking an edge that closes a cycle in the graph must be refused
@@ -629,13 +643,7 @@ func (m *Monitor) passOracles(op Op, s Sample) {
 		}
 		if sref.Fired && sref.Watched >= 0 && e.Registered(sref.Watched) {
 			w := e.Nodes[sref.Watched]
-			ran := false
-			for _, ev := range s.Raw {
-				if ev.N == sref.Watched && (ev.K == "EvInvoked" || ev.K == "EvCutoff" || ev.K == "EvBindFn") {
-					ran = true
-				}
-			}
-			if !ran && (w.Kind == "Map" || w.Kind == "Map2" || w.Kind == "MapN" || w.Kind == "Cutoff") {
+			if (w.Kind == "Map" || w.Kind == "Map2" || w.Kind == "MapN" || w.Kind == "Cutoff") {
 				m.add("C03", "sentinel-wake-missed", fmt.Sprintf("sentinel s%d fired but the necessary node n%d it watches did not recompute", sid, sref.Watched))
 			}
 		}
